@@ -28,6 +28,7 @@ import (
 	"regexp"
 	"strings"
 	"sync"
+	"sync/atomic"
 	"time"
 
 	"github.com/ClickHouse/ch-go"
@@ -160,7 +161,12 @@ type Server struct {
 
 	connects int
 	refused  int
+	ends     atomic.Int64
 }
+
+// Ends counts the Do calls that have returned (lock-free: for observers that want to act
+// right after an INSERT ended, before the insert service has resolved its promises).
+func (s *Server) Ends() int64 { return s.ends.Load() }
 
 // NewServer returns a database that accepts everything.
 func NewServer() *Server {
@@ -461,6 +467,7 @@ func (c *Client) Do(ctx context.Context, q ch.Query) error {
 		}
 	}
 
+	s.ends.Add(1) // before the lock: observers spinning on Ends() see the end of Do as early as possible
 	s.mu.Lock()
 	call.release = nil
 	call.Err = err
